@@ -53,7 +53,9 @@ def gen_case(rnd, i, thorough):
     if model == "name_Cumulative":
         case["extra"] = {"num_votes": rnd.randint(1, 4)}
     case["entry"] = "generate_profile"
-    if rnd.random() < 0.15:
+    if rnd.random() < 0.2:
+        case["reuse_inputs"] = True
+    elif rnd.random() < 0.15:
         # the documented from_params route: intervals are drawn from a Dirichlet (small alpha gives tiny supports)
         case["from_params"] = True
         case["alpha"] = rnd.choice([0.01, 0.1, 1.0, 10.0])
@@ -84,12 +86,47 @@ def check_case(ctx, case):
         if og.ok:
             g0, p = og.value
             og.value = g0
+    elif case.get("reuse_inputs") and "slate_to_candidates" in p:
+        # state leaks: the same parameter objects (PreferenceInterval instances, dictionaries) are used for two
+        # generators; the first one generates a profile, the second one is the one that is checked
+        def make_twice():
+            import votekit.ballot_generator as bg
+
+            kw = bp.build_kwargs(p)
+            if model == "short_name_PlackettLuce":
+                kw["ballot_length"] = extra["ballot_length"]
+            if model == "name_Cumulative":
+                kw["num_votes"] = extra["num_votes"]
+            snap = canon.jhash([{b: {s: [dict(iv.interval), sorted(iv.zero_cands)] for s, iv in per.items()}
+                                 for b, per in kw["pref_intervals_by_bloc"].items()}, kw["cohesion_parameters"], kw["bloc_voter_prop"],
+                                kw["slate_to_candidates"]])
+            g1 = getattr(bg, model)(**kw)
+            try:
+                g1.generate_profile(max(1, N // 2))
+            except Exception:  # noqa  (judged on the second generator / by other cases)
+                pass
+            g2_ = getattr(bg, model)(**kw)
+            snap2 = canon.jhash([{b: {s: [dict(iv.interval), sorted(iv.zero_cands)] for s, iv in per.items()}
+                                  for b, per in kw["pref_intervals_by_bloc"].items()}, kw["cohesion_parameters"], kw["bloc_voter_prop"],
+                                 kw["slate_to_candidates"]])
+            return g2_, snap == snap2
+
+        og = observe(make_twice)
+        ctx.count("reused_input_constructions")
+        if og.ok:
+            g0, same = og.value
+            og.value = g0
+            if not same:
+                ctx.fail(f"{model}: constructing a generator / generating a profile changed the parameter objects it was given", case, {})
+                return
     else:
         og = observe(bp.make, model, p, extra)
     if not og.ok:
         ctx.fail(f"{model}: constructor raised {og.etype} on a valid parameter set", case, {"msg": str(og.exc)[:300]})
         return
     g = og.value
+    random.seed(case["seed"])  # generation starts from the same stream whatever the construction consumed
+    np.random.seed(case["seed"] % (2 ** 32))
     blocs = list(p.get("bloc_voter_prop", {}))
     extreme = any(v in (0.0, 1.0) for d in p.get("cohesion_parameters", {}).values() for v in d.values()) or \
         any(v in (0.0, 1.0) for v in p.get("bloc_voter_prop", {}).values())
@@ -145,6 +182,8 @@ def check_case(ctx, case):
         g2 = observe(bp.make_from_params, model, case["params"], extra, case.get("alpha", 1.0)) if case.get("from_params") else observe(bp.make, model, p, extra)
         if g2.ok and not case.get("from_params"):
             gg = g2.value
+            random.seed(case["seed"])
+            np.random.seed(case["seed"] % (2 ** 32))
             o2 = observe(gg.generate_profile_MCMC, N) if entry == "generate_profile_MCMC" else (
                 observe(gg.generate_profile, N, deterministic=False) if entry == "mcmc" else observe(gg.generate_profile, N))
             ctx.count("plain_entry_checked")
